@@ -311,6 +311,10 @@ func reg2bin(beg, end int64, minShift, depth uint32) uint32 {
 
 // calculate the list of bins that may overlap with region [beg,end) (zero-based).
 func reg2bins(beg, end int64, minShift, depth uint32) []uint32 {
+	if beg >= end {
+		// An empty region overlaps no bin.
+		return nil
+	}
 	end--
 	var list []uint32
 	s := minShift + depth*nextBinShift
